@@ -1,16 +1,18 @@
 #!/bin/bash
-# usage: refcheck.sh <workdir of a refactoring sub-agent> [props...]  -- applies a behaviour-preserving change to /repo, runs the quick
-# checks (all claimed properties by default), lists every alarm, restores /repo.
+# usage: refcheck.sh <workdir of a refactoring sub-agent> [props...]  -- applies a behaviour-preserving change to a scratch copy of /repo,
+# runs the quick checks on it (all claimed properties by default), lists every alarm, removes the copy.
 set -u
 WT=$1; shift
 PROPS=${*:-C01 C02 C03 C04 C05 C06 C07 C08 C09 C12 C13 C14 C15 C16 C17 C18 C19}
 export GOFLAGS=-mod=mod GOPROXY=off GOSUMDB=off GOTOOLCHAIN=local
-git -C /repo apply $WT/patch.diff || { echo "cannot apply to /repo"; exit 1; }
-( cd /repo && go build ./... && go test -vet=off -count=1 ./store ./sasl 2>&1 | tail -2 )
+S=$(mktemp -d /tmp/refcheck-XXXXXX)
+rsync -a --exclude .git /repo/ $S/
+( cd $S && patch -p1 -s < $WT/patch.diff ) || { echo "cannot apply"; rm -rf $S; exit 1; }
+( cd $S && go build ./... && go test -vet=off -count=1 ./store ./sasl 2>&1 | tail -2 )
 for p in $PROPS; do
-  out=$(cd /verif && timeout 3000 bin/govc -prop $p -no-evidence -no-replay -work /verif/work/ref-$p 2>&1)
+  out=$(cd /verif && timeout 3000 bin/govc -repo $S -prop $p -no-evidence -no-replay -work $S.work 2>&1)
   echo "$out" | grep "^govc:" | cut -c1-160
   echo "$out" | grep "^   \[" | cut -c1-260 | head -12
-  rm -rf /verif/work/ref-$p
+  rm -rf $S.work
 done
-git -C /repo checkout -- . ; git -C /repo status --short | head -3
+rm -rf $S
